@@ -83,6 +83,7 @@ def run(R, ctx):
 
     c01.sink_table(R, ctx, 'R19.2')
     c01.swap_rules(_Only(R, 'R01.4', 'R19.3'), ctx)
+    c01.index_state_rule(R, ctx, rule='R19.3')
     initialize(R, ctx)
     log_reports(R, ctx, ed)
     panics(R, ctx, sites)
